@@ -29,6 +29,16 @@ def probes():
             if "{k}" in v:
                 for k in KEYS: out.append(v.replace("{k}", k))
             else: out.append(v)
+    # a $$ name with something around it that a later canonicalisation (trim, case folding, a cut at a separator) could remove: the guard
+    # and the data access must agree on what the key IS
+    deco = ["\\x09{}", "\\x0d{}", "\\x0b{}", "\\x0c{}", "\\xc2\\xa0{}", "\\xe2\\x80\\x83{}", "\\xc2\\x85{}", "{}\\x09", "{}\\x0d", "{}\\xc2\\xa0", "\\x09{}\\x0d",
+            "{};", "{};x", "{},x", "x,{}", "{}|x", "\\x00{}", "{}\\x00"]
+    for w in ("get", "get-safe", "set", "set-safe", "remove", "increment", "watch", "unwatch", "keys"):
+        for v in cmdgen.VARIANTS[w]:
+            if "{k}" not in v: continue
+            for d in deco:
+                for k in ("$$secret", "$$token"): out.append(v.replace("{k}", d.format(k)))
+    for k in ("$$SECRET", "$$Secret", "$$TOKEN"): out += [f"get {k}", f"get-safe {k}", f"watch {k}"]
     for p in PATTERNS: out += [f"keys {p}", f"ls {p}"]
     out += ["use-db t x guess", "resolve 5 t $$secret 1 hack", "resolve 5 t $$token 1 hack", "rp 3 get $$secret", "rp 3 rp 4 keys $$*"]
     return [p for p in out if not p.startswith("auth adm pw")]
@@ -42,7 +52,7 @@ class C08(Spec):
                 "Nun.C08_only_administrators_change_secure_entries", "Nun.exec_namesOk",
                 "Nun.C08_request_confidential", "Nun.C08_line_confidential", "Nun.C08_history_confidential", "Nun.sort_eq_of_same_members", "Nun.registerArbiter_lowEq"]
     rule = ("pairs of servers that differ only in $$ contents (value and existence of $$secret/$$other, another user's token and permission list); "
-            "the same non-admin command sequence (length 1-3, every command word of the parser x key arguments {$$token, $$user_x, $$permission_$x, $$secret, $secret, secret} and patterns {*, $$*, *$$}) "
+            "the same non-admin command sequence (length 1-3, every command word of the parser x key arguments {$$token, $$user_x, $$permission_$x, $$secret, $secret, secret}, the $$ names decorated with 18 prefixes / suffixes a canonicalisation could remove (tab, CR, VT, FF, NBSP, EM SPACE, NEL, NUL, `;`, `,`, `|`) and in other letter case, and patterns {*, $$*, *$$}) "
             "from a database-token and a user-token session runs on both, also with an administrator's own (stale-versioned, plain, removing) write to a $$ key in the middle of the session on databases of every strategy, before and after the session registers as arbiter / watches / lists keys; the probing session's replies and channel lines must be byte-identical and every $$ entry unchanged. "
             "non-trivial = at least one probe refused and one answered; distinct by trace hash")
 
